@@ -1204,6 +1204,11 @@ func buildIntrinsics() map[string]intrinsic {
 			r := ex.callFnBody(fr, fn, args, nil)
 			if rt, ok := r.(*Term); ok {
 				ex.addPC(ex.tc.Eq(ex.tc.UF(fmt.Sprintf("murmur%d", len(bs)), 32, bs...), rt))
+				// an earlier decision of this path may have taken murmur(symbolic key) != this value with the key equal
+				// to these bytes: such a path does not exist
+				if ex.checkPC(nil) == Unsat {
+					ex.end(OutInfeasible, "hash axiom contradicts the path")
+				}
 			}
 			return r
 		}
@@ -1310,7 +1315,11 @@ func (ex *Exec) reportViolation(label string, fr *frame, needCheck bool) {
 	v := &Violation{Label: label, Model: map[string]uint64{}, Where: callerName(fr), Notes: ex.notes, Inputs: ex.inputs}
 	ok := true
 	if needCheck {
-		ok = ex.checkPC(nil) == Sat
+		r := ex.checkPC(nil)
+		if r == Unsat {
+			ex.end(OutInfeasible, "assertion reached on an infeasible path")
+		}
+		ok = r == Sat
 	}
 	if ok {
 		var vars []*Term
